@@ -30,6 +30,8 @@ func showcase() []Blk {
 		{K: "bq", B: []Blk{para(tx("quoted words"))}},
 		{K: "code", Fenced: true, Info: "go", Lines: []string{"", "func f() {", "    ret *p", "", "\t}"}},
 		{K: "code", Lines: []string{"x = 1.", "", "      - l"}},
+		para(tx("see"), Inl{K: "br", S: "spec"}, tx("and"), Inl{K: "br", S: "ref", C: []Inl{tx("the text")}}, tx("there")),
+		{K: "code", Fenced: true, FIndent: 2, Info: "go", Lines: []string{"  func f() {", "\tif x {", "\t\tret", " \t}", "  }", "", "      deep", " less"}},
 		{K: "hr", Mark: "*"},
 		{K: "tbl", Aligns: []string{"left", "center", "right", ""}, Head: cells("h1", "h2", "h3", "h4"),
 			Rows: [][][]Inl{cells("a", "b", "c", "d"), {{sp("st", tx("bold cell"))}, {sp("em", tx("it"))}, {tx("")}}}},
@@ -45,6 +47,8 @@ func fixedCases() []Case {
 	all := Opts{GFM: true, Tables: true, TaskList: true, Math: true, Footnotes: true, TOC: true, TOCMax: 3}
 	out := []Case{
 		{Kind: "ast", Cls: "clean", Entry: "bytes", Opts: all, Doc: showcase()},
+		{Kind: "ast", Cls: "clean", Entry: "bytes", Opts: all, Doc: showcase(), Warm: []string{warmPool[0], warmPool[1]}},
+		{Kind: "ast", Cls: "clean", Entry: "string", Opts: all, Doc: showcase(), Warm: []string{warmPool[5], warmPool[3]}},
 		{Kind: "ast", Cls: "clean", Entry: "string", Opts: Opts{GFM: true, Tables: true, Math: true, TOCMax: 0}, Doc: showcase()},
 		{Kind: "bytes", Cls: "fixed", Entry: "bytes", Opts: all, Toks: []Tok{{S: "", N: 1}}},
 		{Kind: "bytes", Cls: "fixed", Entry: "file", Opts: all, Toks: []Tok{{S: "# h\n\n| a |\n|-|\n| b |\n\n$$\n\\frac{1}{2}\n$$\n\n- [x] t\n\n[^1]: note\n\ntext[^1] ![img](x.png) <b>raw</b>\n", N: 1}}},
@@ -82,6 +86,12 @@ func selfTest() error {
 	}
 	if len(r1) < 20 {
 		return fmt.Errorf("showcase reading has only %d blocks", len(r1))
+	}
+	for _, tc := range [][3]string{{"\tif x {", "2", "  if x {"}, {"\t\tret", "2", "  \tret"}, {"  a", "2", "a"}, {" a", "3", "a"}, {"     a", "3", "  a"},
+		{" \tb", "2", "  b"}, {"\tb", "0", "\tb"}, {"\t  b", "3", "   b"}, {"x", "3", "x"}, {"", "2", ""}} {
+		if got := dedent(tc[0], int(tc[1][0]-'0')); got != tc[2] {
+			return fmt.Errorf("dedent(%q,%s) = %q, want %q", tc[0], tc[1], got, tc[2])
+		}
 	}
 	// the placement used to attribute M1 failures
 	for _, tc := range []struct {
